@@ -1075,6 +1075,38 @@ func runC08(r *Run) {
 	r.Assume = []string{"distinct iteration keys address distinct store keys / map entries when the key or index expression is derived from the iteration variables", "sdk Int/Dec/Coins Add and Sub are exact"}
 	r.rule("C08.R1", "every reachable range-over-map loop is order-insensitive (per loop: constructs judged and why)", 15)
 	r.rule("C08.R1p", "slices built in map order and returned: every caller's use hides the order", 3)
+	// witness for an order-insensitive consumer: the feeder ids SealRound returns come in map order; removing
+	// their nonce items commutes only because the removal keeps the order of the remaining items
+	for _, nm := range []string{"Keeper.RemoveNonceWithValidatorAndFeederID", "Keeper.removeNonceWithValidatorAndFeederID"} {
+		nv := w.View("x/oracle/keeper", nm)
+		if nv == nil {
+			r.bad("C08.R1p", "witness|nonce-removal-order-preserving|"+nm, "-", "anchor", nm+" not found")
+			continue
+		}
+		okApp, swaps := false, false
+		ast.Inspect(nv.Decl.Body, func(n ast.Node) bool {
+			as, isAs := n.(*ast.AssignStmt)
+			if !isAs || len(as.Lhs) != 1 || len(as.Rhs) != 1 {
+				return true
+			}
+			if lastField(as.Lhs[0]) == "NonceList" {
+				if c, isC := stripParens(as.Rhs[0]).(*ast.CallExpr); isC && exprString(c.Fun) == "append" && len(c.Args) == 2 && c.Ellipsis.IsValid() {
+					a0, ok0 := stripParens(c.Args[0]).(*ast.SliceExpr)
+					a1, ok1 := stripParens(c.Args[1]).(*ast.SliceExpr)
+					if ok0 && ok1 && a0.Low == nil && a0.High != nil && a1.High == nil && a1.Low != nil && sumTerms(a1.Low) == sumTerms(&ast.BinaryExpr{X: a0.High, Op: token.ADD, Y: &ast.BasicLit{Kind: token.INT, Value: "1"}}) {
+						okApp = true
+					}
+				}
+			}
+			if ix, isIx := stripParens(as.Lhs[0]).(*ast.IndexExpr); isIx && lastField(ix.X) == "NonceList" {
+				if _, rhsIx := stripParens(as.Rhs[0]).(*ast.IndexExpr); rhsIx {
+					swaps = true
+				}
+			}
+			return true
+		})
+		r.check(okApp && !swaps, "C08.R1p", "witness|nonce-removal-order-preserving|"+nm, nv.pos(nv.Decl), "removing a feeder's nonce item keeps the order of the remaining items (so removals in any order give the same stored list)", nm+" does not delete with append(list[:i], list[i+1:]...) (or moves another element into the gap): the stored nonce list then depends on the order of the sealed feeder ids, which comes from a map iteration")
+	}
 	r.rule("C08.R2", "no wall clock, randomness, process environment, goroutines or select in consensus-reachable code", 400)
 	r.rule("C08.R3", "package-level variables written from consensus-reachable code are exactly the audited set", 8)
 	r.rule("C08.R5", "node-local configuration (AppOptions) reaches consensus-reachable code only under ctx.IsCheckTx(), or through an audited field", 2)
